@@ -22,6 +22,12 @@ def tyEq (a b : TyKey) : Bool := a.cls == b.cls && blsEq a.bls b.bls && a.str ==
 /-- `SerializableType.__hash__` hashes `(str(self), bit_length_set)`, and a bit length set hashes `(min, max)`. -/
 def tyHashKey (a : TyKey) : String × Nat × Nat := (a.str, a.bls.min, a.bls.max)
 
+/-- A `ServiceType` is the one kind of type without a bit length set (the property raises `TypeError`):
+    `SerializableType.__eq__` then replaces the comparison of the sets by `same_type`, and `__hash__` hashes
+    `(str(self), BitLengthSet(0))`.  Both are what the general rule yields for the constant set `{0}`: against another
+    service the set comparison is trivially true, against any other kind `cls` already differs. -/
+def svcKey (str : String) : TyKey := { cls := "ServiceType", str := str, bls := .leaf [0] }
+
 /-- Exact rationals, booleans, strings (as code points). -/
 inductive Prim where
   | rat (num : Int) (den : Nat)
